@@ -1,6 +1,8 @@
 package adapt
 
 import (
+	"sync/atomic"
+	"time"
 	"context"
 	"errors"
 
@@ -14,6 +16,10 @@ import (
 
 // V2 drives the SDK v2 fake client.
 type V2 struct{ C *v2client.Client }
+
+// CancellingContexts makes every SDK v2 call of this process use a cancellable / deadline context (C11).
+var CancellingContexts atomic.Bool
+var ctxSeq atomic.Int64
 
 // NewV2 returns a fresh SDK v2 client.
 func NewV2() *V2 { return &V2{C: v2client.NewClient()} }
@@ -120,6 +126,24 @@ func (c *V2) Do(op Op) (out Outcome) {
 		}
 	}()
 	ctx := context.Background()
+	if CancellingContexts.Load() {
+		// a live, cancellable context that is cancelled while the call is (probably) still queued or running, and a
+		// deadline context that never fires: the library ignores contexts, so nothing may change - but IF a call
+		// reports cancellation it must not take effect afterwards (the conservation monitors count outcomes)
+		switch ctxSeq.Add(1) % 3 {
+		case 0:
+			c2, cancel := context.WithCancel(ctx)
+			go func() {
+				time.Sleep(time.Duration(ctxSeq.Load()%7) * 5 * time.Microsecond)
+				cancel()
+			}()
+			ctx = c2
+		case 1:
+			c2, cancel := context.WithTimeout(ctx, time.Hour)
+			defer cancel()
+			ctx = c2
+		}
+	}
 	fin := func(err error) Outcome {
 		cls, msg := ClassifyErr(err)
 		o := Outcome{Class: cls, Msg: msg}
